@@ -4,6 +4,11 @@
 //
 //	parse <xBYTES> (<xBADRX>*)   types.Parse under a 2 s deadline → value <expr> | parse-error L C | fault | timeout | other
 //	                             the list is the regexp.Compile oracle for this text (syn.BadRegexps)
+//	resolve <xBYTES> (<xBADRX>*) [((BITS xFTEXT)*)]
+//	                             Context.ParseType → type x<its text> | reported <ISSUE_CODE> | parse-error L C | fault | outside
+//	                             (`outside`: the expression mentions something the resolver model does not have — decided on
+//	                             the parse result by syn.Modelled, the twin of the model's Expr.outsideB); the optional third
+//	                             argument is the float-text oracle (syn.FloatOracle)
 //
 // The direct predicate (on the implementation only) covers both halves of the property: the parse outcome must be
 // a value or a reported parse error located inside the input, and — when the value is a type expression —
@@ -42,6 +47,15 @@ func exec(c px.Context, op string, args []sx.Sexp) core.Result {
 			break
 		}
 		return parseOp(c, string(b))
+	case "resolve":
+		if len(args) != 2 && len(args) != 3 {
+			break
+		}
+		b, err := args[0].AsBytes()
+		if err != nil {
+			break
+		}
+		return resolveOp(c, string(b))
 	}
 	return core.Result{Out: "bad-op", Pred: "FAIL harness-bad-op " + op}
 }
@@ -97,6 +111,60 @@ func parseOp(c px.Context, text string) core.Result {
 	return core.Result{Out: out, Pred: "ok", NonTrivial: nt, Tags: tags}
 }
 
+// resolveOp: the second half of the property as an observation that the model answers too: the type ParseType returns (by
+// its text) or the issue code it reports.
+func resolveOp(c px.Context, text string) core.Result {
+	o := syn.Parse(text)
+	switch o.Kind {
+	case "value":
+	case "parse-error":
+		return core.Result{Out: o.Canon(), Pred: "n/a", Tags: []string{"resolve", "unparsable"}}
+	case "skipped":
+		return core.Result{Out: "skipped", Pred: "n/a", Tags: []string{"skipped-after-timeouts"}}
+	default:
+		return fail(o.Canon(), "parse-"+o.Kind, text, o.Msg, []string{"resolve"})
+	}
+	r := syn.Safely(func() px.Value { return c.ParseType(text) })
+	tags := []string{"resolve", "resolve:" + r.Kind}
+	modelled := syn.Modelled(o.Val)
+	out := "outside"
+	switch r.Kind {
+	case "value":
+		t, ok := r.Val.(px.Type)
+		if !ok {
+			return fail(out, "resolve-nil", text, "Context.ParseType returned no type and raised no error", tags)
+		}
+		var s string
+		if p := syn.Safely(func() px.Value { s = t.String(); return px.Undef }); p.Kind != "value" {
+			if modelled {
+				return fail("unprintable", "print-"+p.Kind, text, p.Msg, tags)
+			}
+			return core.Result{Out: out, Pred: "n/a", Tags: append(tags, "outside", "unprintable")}
+		}
+		if modelled {
+			out = "type " + sx.Str(s).Atom
+		}
+		tags = append(tags, "type:"+t.Name())
+	case "reported", "parse-error":
+		code := r.Code
+		if r.Kind == "parse-error" {
+			code = "PCORE_PARSE_ERROR"
+		}
+		if modelled {
+			out = "reported " + code
+		}
+		tags = append(tags, "resolve-code:"+code)
+	case "fault":
+		return fail("fault", "resolve-fault", text, r.Msg, tags)
+	default:
+		return fail(r.Kind, "resolve-"+r.Kind, text, r.Msg, tags)
+	}
+	if !modelled {
+		tags = append(tags, "outside")
+	}
+	return core.Result{Out: out, Pred: "ok", NonTrivial: modelled && strings.ContainsAny(text, "["), Tags: tags}
+}
+
 func fail(out, class, text, detail string, tags []string) core.Result {
 	r := core.Fail(out, class, syn.Clean(fmt.Sprintf("%q: %s", text, detail)))
 	r.Tags = tags
@@ -107,6 +175,12 @@ func fail(out, class, text, detail string, tags []string) core.Result {
 
 func emit(g *core.G, text string) {
 	g.Emit("parse " + sx.Str(text).Atom + " " + syn.OracleSexp(text))
+}
+
+// emitR: the text as a parse op and as a resolve op
+func emitR(g *core.G, text string) {
+	emit(g, text)
+	g.Emit("resolve " + sx.Str(text).Atom + " " + syn.OracleSexp(text) + syn.FloatOracle(text))
 }
 
 // one representative per token kind (plus the two words the parser treats specially and one bad character)
@@ -181,12 +255,12 @@ func gen(g *core.G) {
 	// per kind of argument (the universe in which "resolving returns a type or a reported error" is enumerated),
 	// plus sampled lists of length 3 and 4
 	for _, tn := range syn.TypeNames {
-		emit(g, tn)
+		emitR(g, tn)
 		for _, a := range syn.ArgReps {
-			emit(g, tn+"["+a+"]")
+			emitR(g, tn+"["+a+"]")
 			emit(g, tn+"("+a+")")
 			for _, b := range syn.ArgReps {
-				emit(g, tn+"["+a+", "+b+"]")
+				emitR(g, tn+"["+a+", "+b+"]")
 			}
 		}
 		for i := 0; i < 150*g.Scale; i++ {
@@ -195,7 +269,7 @@ func gen(g *core.G) {
 			for j := range xs {
 				xs[j] = syn.ArgReps[g.Rng.Intn(len(syn.ArgReps))]
 			}
-			emit(g, tn+"["+strings.Join(xs, ", ")+"]")
+			emitR(g, tn+"["+strings.Join(xs, ", ")+"]")
 		}
 	}
 
@@ -206,13 +280,13 @@ func gen(g *core.G) {
 	for _, pt := range syn.ParamTypeNames {
 		leaves := append(append([]string{}, syn.ShapeLeaves...), pt.Extra...)
 		for _, al := range syn.ArgShapes(leaves, false) {
-			emit(g, pt.Name+"["+al+"]")
+			emitR(g, pt.Name+"["+al+"]")
 		}
 		for _, al := range syn.ArgShapes4(syn.ShapeLeaves, g.Thorough()) {
-			emit(g, pt.Name+"["+al+"]")
+			emitR(g, pt.Name+"["+al+"]")
 		}
 		for i := 0; i < 200*g.Scale; i++ { // sampled: deeper nestings and longer lists over all leaves
-			emit(g, pt.Name+"["+randShape(g.Rng, leaves, 2)+"]")
+			emitR(g, pt.Name+"["+randShape(g.Rng, leaves, 2)+"]")
 		}
 	}
 	// Struct: hash forms — every key kind x value kind, one and two entries, the hash inside an array, after / before another argument
@@ -223,7 +297,7 @@ func gen(g *core.G) {
 			m := k + " => " + v
 			for _, t := range []string{"Struct[{" + m + "}]", "Struct[" + m + "]", "Struct[[{" + m + "}]]", "Struct[{" + m + "}, 1]", "Struct[1, {" + m + "}]", "Struct[[{" + m + "}], true]",
 				"Struct[{b => String, " + m + "}]", "Struct[{" + m + ", b => String}]", "Struct[{" + m + "}, {" + m + "}]", "Struct[[{" + m + "}, {" + m + "}]]", "Struct[[[{" + m + "}]]]"} {
-				emit(g, t)
+				emitR(g, t)
 			}
 		}
 	}
@@ -290,7 +364,7 @@ func gen(g *core.G) {
 		}
 	}
 	for _, e := range exprs {
-		emit(g, e)
+		emitR(g, e)
 		for i := 0; i < len(e); i++ {
 			emit(g, e[:i])
 			emit(g, e[:i]+e[i+1:])
